@@ -47,6 +47,7 @@ var entryTokens = []string{
 	"a", "b", "c", "ab", "|", "(", "(?:", ")", "[", "]", "a-c", "*", "+", "?", "{2}", ".", "^", "$",
 	`\.`, `\\`, `\x5c`, `"`, `\"`, `\s`, `\t\n\f\r `, " ", "!-~", `\x00`, "é", `\b`,
 	`\(?i:`, // literal text that looks like an engine flag group
+	"%",     // a formatting verb for whoever prints the result with a printf-style function
 }
 
 // additional tokens for C02 (pasting safety)
